@@ -28,6 +28,28 @@ class Unsupported(BaseException):
     """The proxy was used in a way the engine does not model (harness error)."""
 
 
+def simulated(exc):
+    """mark an exception that a contract stub raises ON PURPOSE (it stands for a documented failure of the real
+    dependency); any other exception that originates in /verif code is a harness fault, not a finding"""
+    exc._vfw_simulated = True
+    return exc
+
+
+def raised_by_harness(exc):
+    """True if the exception was raised (not merely passed through) by code under /verif and is not a simulated failure"""
+    if getattr(exc, '_vfw_simulated', False):
+        return False
+    tb = exc.__traceback__
+    last = None
+    while tb is not None:
+        last = tb
+        tb = tb.tb_next
+    if last is None:
+        return False
+    fn = last.tb_frame.f_code.co_filename
+    return fn.startswith('/verif/') and '/site-packages/' not in fn
+
+
 class Abort(BaseException):
     """Path is infeasible (both outcomes unsat)."""
 
